@@ -383,6 +383,28 @@ def run(tier):
                                   'after %d earlier call(s) %s(%s, expect_failure=%s) gave %s; fresh process gives %s' % (
                                       pr['l'] - 1, rec['fn'], rec['k'], rec['ef'], rec['out'], rec['fresh']),
                                   {'calls': [[list(c), ef] for c, ef in calls]})
+        # binding self-test (DESIGN section 7): histories TLC accepted, with the recorded outcome of one call flipped,
+        # must be rejected - otherwise the trace specification does not look at what was recorded
+        flagged_q = {idx[pr['tid'] - 1] for idx, r in zip(shards, outs) for pr in r.printed}
+        import copy as _copy
+        bad = []
+        for q, t in enumerate(traces):
+            if q in flagged_q or not t['calls'] or len(t['calls']) > 30:
+                continue
+            c = _copy.deepcopy(t)
+            rec = c['calls'][-1]
+            rec['out'] = 'False' if rec['out'] != 'False' else 'True'
+            bad.append(c)
+            if len(bad) >= 6:
+                break
+        if bad and not os.environ.get('VERIF_NO_SELFTEST'):
+            p = sc.file('sc_selftest.ndjson')
+            common.write_ndjson(p, bad)
+            r = common.run_tlc_shards(specdir, 'Trace_SchemaCache', 'Trace_SchemaCache.cfg', [{'TRACE_FILE': p}], workers_each=1)[0]
+            rejected = len({pr['tid'] for pr in r.printed if pr.get('kind') != 'drift'})
+            common.SELFTESTS.append({'trace_spec': 'Trace_SchemaCache', 'corrupted': len(bad), 'rejected': rejected})
+            if rejected < len(bad):
+                raise MachineryError('binding self-test: Trace_SchemaCache accepted %d of %d corrupted histories' % (len(bad) - rejected, len(bad)))
         # the outcomes the test session itself saw (recorded inside pytest, one process, the suite's own order)
         for i, ((c, ef), o) in enumerate(zip(suite_hist, suite_outs)):
             rep.count('suite_session_calls_compared')
